@@ -10,6 +10,10 @@ PROJ = "[(5, 1, Some PT_Git); (2, 1, None); (1, 1, Some PT_Git); (3, 1, Some PT_
 SRC_NOVCS = {"from_gitignore": 1, "from_dotignore": 2, "sub/from_hgignore": 3, "sub/from_sub_gitignore": 4, "from_global_git": 6, "from_global_app": 7,
              "from_explicit_file": 9}
 PROJ_NOVCS = "[(2, 1, None); (1, 1, Some PT_Git); (3, 1, Some PT_Mercurial); (4, 1, Some PT_Git)]%N"     # the same tree without .git
+# the git project with core.excludesFile set in its .git/config: from_origin lists that file (global scope, Git), and the user-level git ignore is skipped
+SRC_EXCL = dict(SRC, from_custom_excl=8)
+PROJ_EXCL = "[(8, 0, Some PT_Git); (5, 1, Some PT_Git); (2, 1, None); (1, 1, Some PT_Git); (3, 1, Some PT_Mercurial); (4, 1, Some PT_Git)]%N"
+LAYOUTS = {"git": (SRC, PROJ), "novcs": (SRC_NOVCS, PROJ_NOVCS), "gitexcl": (SRC_EXCL, PROJ_EXCL)}
 GLOB = "[(6, 0, Some PT_Git); (7, 0, None)]%N"
 # explicit options under test: (name, args, probes it affects with the verdict it forces when alone)
 OPTIONS = [
@@ -57,6 +61,8 @@ class C12(Prop):
             # a project without any VCS metadata directory that still has VCS ignore files
             for name, args, extra in OPTIONS[:2]:
                 cases.append({"bits": bits, "opt": name, "args": fl + args, "probes": list(SRC_NOVCS) + ["x.pyc", "plain.txt"], "extra": extra, "layout": "novcs"})
+            for name, args, extra in OPTIONS[:2]:
+                cases.append({"bits": bits, "opt": name, "args": fl + args, "probes": list(SRC_EXCL) + ["x.pyc", ".git/HEAD", "plain.txt"], "extra": extra, "layout": "gitexcl"})
         d = scratch("c12")
         write_jsonl(os.path.join(d, "cases.jsonl"), cases)
         rc, obs, out = run_harness("h_cli", ["ignores", os.path.join(d, "cases.jsonl"), os.path.join(d, "fs")], timeout=900)
@@ -67,7 +73,7 @@ class C12(Prop):
         for case, o in zip(cases, obs):
             expl = "[9]%N" if case["opt"].startswith("ignore-file") else "[]"
             vcs = coq_list(["PT_" + v for v in o.get("vcs", [])])          # the project types the CLI detected
-            terms.append(f"eval_select true {case['bits']}%N {vcs} {PROJ if case['layout'] == 'git' else PROJ_NOVCS} {GLOB} {expl}")
+            terms.append(f"eval_select true {case['bits']}%N {vcs} {LAYOUTS[case['layout']][1]} {GLOB} {expl}")
         res, err = coq_eval("c12", ["Gen.Origins_gen", "Cli.IgnoreSources", "Run.EvalC12"], terms)
         if err:
             c.errors.append("model evaluation failed: " + err[-800:])
@@ -88,7 +94,7 @@ class C12(Prop):
                     c.disagreements.append({"case": case["args"], "impl": o["listed"], "model": sel_list, "what": "dirs::ignores list"})
             # expected verdicts from the model's selection
             exp = {}
-            srcs = SRC if case["layout"] == "git" else SRC_NOVCS
+            srcs = LAYOUTS[case["layout"]][0]
             filtered = case["opt"] in ("filter", "filter-file", "exts")
             for p in case["probes"]:
                 name = p.split("@")[0]
@@ -123,7 +129,7 @@ class C12(Prop):
             if len(c.samples) < 3 and case["bits"] in (5, 48) and case["opt"] == "ignore-file":
                 c.samples.append({"case": case["args"], "impl_list": o["listed"], "model": m, "impl_verdicts": o["verdicts"]})
         # flags remove exactly the sources they name: compare with the no-flag run
-        for layout in ("git", "novcs"):
+        for layout in ("git", "novcs", "gitexcl"):
             if (layout, 0) not in base:
                 continue
             for (lay, bits), v in base.items():
@@ -132,12 +138,12 @@ class C12(Prop):
                 n_vcs, n_proj, n_glob, n_def, n_disc, n_all = [(bits >> i) & 1 for i in range(6)]
                 if n_all:
                     n_vcs = n_proj = n_glob = n_def = n_disc = 1
-                for p, sid in (SRC if layout == "git" else SRC_NOVCS).items():
-                    if p == "from_explicit_file":
-                        continue
-                    vcsy = sid in (1, 3, 4, 5, 6)
+                for p, sid in LAYOUTS[layout][0].items():
+                    if p == "from_explicit_file" or (layout == "gitexcl" and sid == 6):
+                        continue        # (the user-level git ignore stands in when the project's own excludes file is not read: not decided here)
+                    vcsy = sid in (1, 3, 4, 5, 6, 8)
                     proj = sid in (1, 2, 3, 4, 5)
-                    removed = n_disc or (n_proj and proj) or (n_glob and not proj) or (n_vcs and vcsy)
+                    removed = n_disc or (n_proj and proj) or (n_glob and not proj) or (n_vcs and vcsy) or (sid == 8 and n_proj)
                     want = True if removed else base[(layout, 0)][p]
                     if v[p] != want:
                         c.failing.append({"case": {"layout": layout, "flags": [FLAGS[i] for i in range(6) if bits >> i & 1]}, "impl": {p: v[p]}, "expected": want,
